@@ -1,6 +1,7 @@
 import Driver.Util
 import Djc.Model.Render
 import Djc.Spec.Render
+import Djc.Model.Blocks
 open Lean
 open Djc.Tpl Djc.Render
 
@@ -44,6 +45,10 @@ partial def nodeOf (j : Json) : Except String Node := do
   | "comp" => pure (.comp (chars (← getStr j "name")) (← kwOf (← getArr j "kwargs")) (← getBool j "only")
                       (← getBool j "dyn") (← body "body"))
   | "provide" => pure (.provide (chars (← getStr j "key")) (← kwOf (← getArr j "kwargs")) (← body "body"))
+  | "block" => pure (.block (chars (← getStr j "name")) (← body "body"))
+  | "super" => pure .blockSuper
+  | "extends" => pure (.extends (chars (← getStr j "parent")))
+  | "include" => pure (.includen (chars (← getStr j "name")))
   | _ => throw s!"node {t}"
 
 partial def valOf (j : Json) : Except String Val := do
@@ -196,7 +201,43 @@ def handleSpec (j : Json) : Except String Json := do
         | _ => throw "slot pair")
       pure ((Djc.SpecRender.sRenderComp env fuel name kw slots [[], vars]).run {})
   match res with
-  | .ok (toks, _) => pure (Json.mkObj [("out", jarr (toks.map tokJ)), ("err", Json.null)])
+  | .ok (toks, st) => pure (Json.mkObj [("out", jarr (toks.map tokJ)), ("err", Json.null), ("paths", jarr (st.paths.map jl))])
   | .error e => pure (Json.mkObj [("out", Json.null), ("err", errJ e)])
+
+def exprJ : Expr → Json
+  | .lit s => Json.mkObj [("lit", jstr (ofChars s))]
+  | .var p => Json.mkObj [("var", jl p)]
+
+def kwJ (kw : List (Str × Expr)) : Json := jarr (kw.map (fun kv => jarr [jstr (ofChars kv.1), exprJ kv.2]))
+
+def optJ (o : Option Str) : Json := match o with | some s => jstr (ofChars s) | none => Json.null
+
+partial def nodeJ : Node → Json
+  | .text s => Json.mkObj [("t", jstr "text"), ("s", jstr (ofChars s))]
+  | .out e => Json.mkObj [("t", jstr "out"), ("e", exprJ e)]
+  | .ifn c a b => Json.mkObj [("t", jstr "if"), ("c", exprJ c), ("a", jarr (a.map nodeJ)), ("b", jarr (b.map nodeJ))]
+  | .forn x e body => Json.mkObj [("t", jstr "for"), ("x", jstr (ofChars x)), ("e", exprJ e), ("body", jarr (body.map nodeJ))]
+  | .withn x e body => Json.mkObj [("t", jstr "with"), ("x", jstr (ofChars x)), ("e", exprJ e), ("body", jarr (body.map nodeJ))]
+  | .elem t body => Json.mkObj [("t", jstr "elem"), ("tag", jstr (ofChars t)), ("body", jarr (body.map nodeJ))]
+  | .slot n d r data body => Json.mkObj [("t", jstr "slot"), ("name", exprJ n), ("default", jbool d), ("required", jbool r),
+      ("data", kwJ data), ("body", jarr (body.map nodeJ))]
+  | .fill n d f body => Json.mkObj [("t", jstr "fill"), ("name", exprJ n), ("data", optJ d), ("dflt", optJ f), ("body", jarr (body.map nodeJ))]
+  | .comp n kw o d body => Json.mkObj [("t", jstr "comp"), ("name", jstr (ofChars n)), ("kwargs", kwJ kw), ("only", jbool o),
+      ("dyn", jbool d), ("body", jarr (body.map nodeJ))]
+  | .provide k kw body => Json.mkObj [("t", jstr "provide"), ("key", jstr (ofChars k)), ("kwargs", kwJ kw), ("body", jarr (body.map nodeJ))]
+  | .block n body => Json.mkObj [("t", jstr "block"), ("name", jstr (ofChars n)), ("body", jarr (body.map nodeJ))]
+  | .blockSuper => Json.mkObj [("t", jstr "super")]
+  | .extends p => Json.mkObj [("t", jstr "extends"), ("parent", jstr (ofChars p))]
+  | .includen n => Json.mkObj [("t", jstr "include"), ("name", jstr (ofChars n))]
+
+/-- {"op":"flatten","family":[[name,[Node]]…],"roots":[name…]}: each root with extends / block / include resolved -/
+def handleFlatten (j : Json) : Except String Json := do
+  let fam ← (← getArr j "family").mapM (fun kv => do
+    match (← asArr kv) with
+    | [n, t] => do pure ((← strOf n), (← (← asArr t).mapM nodeOf))
+    | _ => throw "family pair")
+  let roots ← (← getArr j "roots").mapM strOf
+  let fuel := (getNat j "fuel").toOption.getD 400
+  pure (Json.mkObj [("flat", jarr (roots.map (fun r => jarr ((Djc.Blocks.flattenTpl fam fuel r []).map nodeJ))))])
 
 end Driver.RenderD
